@@ -8,7 +8,7 @@
 From Coq Require Import List NArith Bool.
 From SV Require Import Text.Str Text.Prog Text.Tokenizer.
 From SV Require Import KV.KvBase KV.KvLex KV.KvParse KV.KvSer KV.KvSym KV.KvParseProofs KV.KvRoundtrip KV.KvStrip
-  KV.KvRefine KV.KvDelivery KV.KvExport.
+  KV.KvRefine KV.KvDelivery KV.KvExport KV.KvFlags.
 Import ListNotations.
 Open Scope N_scope.
 
@@ -198,3 +198,11 @@ Theorem kv_export_raw_block_name_refuted :
   parse_kv ref_pcfg ref_escfg (fun _ => false) (export_doc (ref_expcfg (PRaw FName)) ref_escfg raw_block_witness)
   = PErr (ELex LUnterminated).
 Proof. exact (conj raw_export_rejected raw_export_refuted). Qed.
+
+(** * The flags parameter of Keyvalues.parse
+    [read_flag casefold flags defaults] mirrors [_read_flag] (KV/KvFlags.v; compared with the implementation through
+    the [flags=] parameter on every run).  Whatever mapping is passed, the round trip is the same. *)
+Theorem kv_roundtrip_any_flags : forall C E P, cfg_ok C = true -> esc_ok E = true -> pcfg_ok P = true ->
+  forall casefold flags defaults o d, ws_opts o = true -> doc_names_ok d = true ->
+  parse_kv P E (read_flag casefold flags defaults) (serialise_doc C E o d) = POk d.
+Proof. exact roundtrip_any_flags. Qed.
